@@ -24,7 +24,10 @@ BEFORE = ['a', '1', "'s'", '/r/', 'this', 'null', 'true', 'a++', 'a--', '(a)', '
           '-', '++', '--', '~', 'a <', 'a ==', 'a &&', 'a ||', 'a *', 'a /', 'a %', 'a +=', 'a /=',
           # reserved words used as property names (IdentifierName), also called: the `)` closes a call, not a statement header
           'a.with(b)', 'a.if(b)', 'a.while(b)', 'a.for(b)', 'a.with', 'a.in', 'a.typeof(b)', 'a.return', 'a.this', 'a.function(b)',
-          '{with: 1}.with', 'a.b.with(c)(d)', 'a[with_](b)']
+          '{with: 1}.with', 'a.b.with(c)(d)', 'a[with_](b)',
+          # ... with layout between the `.` and the reserved-word property name (7.6: any IdentifierName after `.`)
+          'a.\ntypeof', 'a./*c*/if(b)', 'a.\r\nwhile(b)', 'a. //c\nfor(b)', 'a.\u2028return', 'a.\n\nin', 'a .\n with(b)',
+          'a.\tvoid', 'a./**/\n/**/delete']
 # contexts that put the statement inside a still open parenthesis / bracket of an enclosing expression
 WRAPPERS = ['f(function(){ %s })', '(function(){ %s })()', '[function(){ %s }]', 'x = (a, function(){ %s })', 'g(1, (function(){ %s }))',
             'if (function(){ %s }) y', 'for (x = function(){ %s };;) ;', 'a[function(){ %s }]', 'new (function(){ %s })']
